@@ -109,3 +109,9 @@ func TestVerifC19_histogram_invalid(t *testing.T) {
 	}
 	c19Sys().UnitInvalid(r, t, plan)
 }
+
+func TestVerifC19_histogram_codec(t *testing.T) {
+	r := verifmc.Start(t, "C19", "histogram_codec")
+	defer r.Finish()
+	c19Sys().UnitCodec(r, t, []prio.Inst{c19H(2, 1), c19H(4, 2), c19H(6, 4)}, []int{2, 3})
+}
